@@ -550,6 +550,9 @@ def split_sheetname(address, sheet=''):
     sh = ''
     if '!' in address:
         sh, address_part = address.split('!', maxsplit=1)
+        if '!' in address_part and ':' not in address[:address.rindex('!')]:
+            # a sheet name can contain '!' but never ':', so this is one reference
+            sh, address_part = address.rsplit('!', maxsplit=1)
 
         # Remove redundant sheet references and deal with inner quotes
         redundant_sheet = unquote_sheetname(sh).replace("'", "''")
